@@ -47,7 +47,7 @@ def from_json(x):
     return x
 
 
-STMT_KINDS = {"expr", "decl", "if", "block", "for", "store", "jump", "empty", "return"}
+STMT_KINDS = {"expr", "decl", "declp", "if", "block", "for", "store", "jump", "empty", "return"}
 ATOM_KINDS = {"reg", "newreg", "explicit", "alias", "imm", "id", "num"}
 
 
@@ -422,6 +422,11 @@ def shrink_expr(e):
         return
     elif k == "load":
         kids = [(3, e[3])]
+    elif k == "comma":
+        kids = [(1, e[1]), (2, e[2])]
+    elif k == "sizeoft":
+        yield A0
+        return
     elif k == "stmtexpr":
         yield e[2]
         if e[1]:
